@@ -76,12 +76,12 @@ PROPS = {
     "C14": dict(fuzz_kinds=[4], mode="model", profile="lfuda", **tiers(8000, 60, 60000, 120, t_fuzz_s=60),
                 rule=GEN_RULE + "non-trivial = an aging point at which some but not all residents are idle and an entry older by insertion than an idle one was used more recently",
                 needs=["aging_points_mixed_older_entry_fresher"]),
-    "C15": dict(mode="model", profile="rr", profiles=[("rr", None, "model", 1.0)] * 6 + [("rrstats", None, "stats-rr", 0.02)] * 2 + [("rrmass", None, "stats-rr-mass", 0.002)],
-                thorough_profiles=[("rr", None, "model", 1.0)] * 6 + [("rrstats", None, "stats-rr", 0.02)] * 2 + [("rrmass_t", None, "stats-rr-mass", 0.0004)],
+    "C15": dict(mode="model", profile="rr", profiles=[("rr", None, "model", 1.0)] * 6 + [("rrstats", None, "stats-rr", 0.02)] * 2 + [("rrmass", None, "stats-rr-mass", 0.003, "plain")],
+                thorough_profiles=[("rr", None, "model", 1.0)] * 6 + [("rrstats", None, "stats-rr", 0.02)] * 2 + [("rrmass_t", None, "stats-rr-mass", 0.001, "plain")],
                 **tiers(8000, 60, 60000, 120),
                 rule=GEN_RULE + "non-trivial = (model mode) at least two evictions and at least one erase of a live key in the same history; "
                 "(stats-rr mode, 2 workers in 9) a run of 400*capacity evicting inserts with at least one interleaved erase+refill, victim-rank histogram checked; "
-                "(stats-rr-mass mode, 1 worker in 9) capacity 300/5000 (thorough: 70000), 30*capacity evictions, none of the original residents may survive; key tables: mixed, multiples of 64, high-bit-only",
+                "(stats-rr-mass mode, 1 worker in 9) capacity 300 / 5000 / 70000 (thorough: also 140000), 30*capacity evictions, run in an engine build without sanitizers and checked iterators, none of the original residents may survive; key tables: mixed, multiples of 64, high-bit-only",
                 needs=["evictions"]),
     "C16": dict(fuzz_kinds=[6, 7], mode="model", profile="ttlfull", **tiers(8000, 60, 60000, 120, t_fuzz_s=60),
                 rule=GEN_RULE + "non-trivial = an insert of a new key into a full tlru/utlru cache holding at least one live and at least one expired resident",
